@@ -27,7 +27,7 @@ FAMS = ("qp", "qp_quartic", "rosenbrock", "exp_wall", "rastrigin", "styblinski_t
 def floors(tier):
     f = {"results_judged": 1500, "restart_results_judged": 500, "restart_below_checkpoint_nit": 100, "early_return_on_restart": 40,
          "callable_stop_criteria_runs": 200, "runs_with_logger": 300, "restarts_with_a_scaler_over_an_unscaled_checkpoint": 100, "kept_results_audited_at_the_end": 1500, "restarts_with_analytic_gradient_from_a_finite_difference_checkpoint": 40, "runs_with_objective_redefined": 150, "objective_redefined_at_a_stationary_point_of_the_old_one": 60,
-         "runs_on_domain_restricted_objective": 60, "__nontrivial__": 25}
+         "runs_on_domain_restricted_objective": 60, "runs_with_objective_values_and_target_of_order_1e-16_and_below": 60, "__nontrivial__": 25}
     for k in MESSAGES:
         f["msg:" + k] = 5
     return f
@@ -72,7 +72,13 @@ def cases(tier, seed):
                              "maxfun_slack": int(rng.integers(0, 4)),
                              "target_met": bool(rng.random() < 0.25), "maxls": int(gen.pick(rng, [1, 2, 5, 20])),
                              "cb": gen.pick(rng, [None, "never", 1])})
-        yield {"problem": ps, "cfg": cfg, "restarts": restarts}
+        tiny = float(10.0 ** -rng.uniform(16, 60)) if (i % 14 == 5 and "scaler" not in cfg) else None
+        if tiny is not None:
+            cfg["jac"] = "callable"
+            cfg["gtol"] = float(gen.pick(rng, [0.0, 0.0, tiny * 1e-6]))
+            for rs_ in restarts:
+                rs_["scaler_on_restart"], rs_["target_between"] = None, False
+        yield {"problem": ps, "cfg": cfg, "restarts": restarts, "tiny_units": tiny}
     # runs whose objective is redefined on the fly (update_fun_def): every implication must be true of the returned state
     nu = 400 if tier == "quick" else 12000
     for i in range(nu):
@@ -251,12 +257,19 @@ def run(spec):
             out.sample = dict(spec=spec)
             return out
         out.count("runs_on_domain_restricted_objective")
+    usc = 1.0
+    if spec.get("tiny_units") and not spec.get("ufd") and P.spec["family"] != "log_barrier":
+        # magnitudes: the same objective expressed in units in which all its values, its gradient and the target are of order 1e-16..1e-60
+        usc = float(spec["tiny_units"])
+        cfg["explicit_scale"] = usc
+        f0 = f0 * usc
+        out.count("runs_with_objective_values_and_target_of_order_1e-16_and_below")
     if kind is not None and np.isfinite(f0):
         fstar = reference_optimum(P)
         if fstar is None or not np.isfinite(fstar):
-            fstar = f0 - 1.0
-        fstar = min(fstar, f0)
-        cfg["ftarget"] = {"below": fstar - 1.0 - abs(fstar), "reachable": fstar + 0.3 * (f0 - fstar) + 1e-12, "above": f0 + 1.0}[kind]
+            fstar = f0 / usc - 1.0
+        fstar = min(fstar * usc, f0)
+        cfg["ftarget"] = {"below": fstar - usc - abs(fstar), "reachable": fstar + 0.3 * (f0 - fstar) + 1e-12 * usc, "above": f0 + usc}[kind]
     tags = dict(family=P.spec["family"])
     keys = set()
     hooks = {}
